@@ -707,6 +707,8 @@ def features(f, under_forall: bool = False, under_exists: bool = False, out=None
             out.add(f"count_{kind}_on_quantified_variable")
     elif op == "pred":
         out.add("pred_" + f[1])
+        if f[1] == "nth" and under_exists:
+            out.add("nth_under_exists")
     elif op == "smt":
         def walk(t):
             if isinstance(t, list) and t:
